@@ -69,6 +69,7 @@ func c06(c *ev.Ctx) {
 	c06Fixed(c)
 	c06PartialReturn(c)
 	c06ReadYourWrite(c)
+	c06RecursionThroughLoops(c)
 	// a built-in (also one the host adds later, after Prepare, between runs) wins over a
 	// function of the same name that the script defines
 	if c.Want("late-built-in") {
@@ -315,6 +316,42 @@ func c06ReadYourWrite(c *ev.Ctx) {
 				}
 				if d := evr.ScopeDepth(); d != 0 {
 					c.Violation(id, "scopes left open", map[string]interface{}{"summary": fmt.Sprintf("%s: %d scope(s) open after the run", tc.script, d), "script": tc.script})
+					break
+				}
+			}
+		}
+	}
+}
+
+// c06RecursionThroughLoops: functions may be called recursively - also when every level
+// makes its call from inside one or two foreach loops, a while loop or a switch. The depth
+// a script can reach is the same as for a plain recursion (the engine allows 10000 calls).
+func c06RecursionThroughLoops(c *ev.Ctx) {
+	shapes := []struct{ name, body string }{
+		{"plain", `if (n <= 0) { return 0; } return 1 + down(n - 1);`},
+		{"inside one foreach", `if (n <= 0) { return 0; } local r; foreach i in [1] { r = 1 + down(n - 1); } return r;`},
+		{"inside two foreach loops", `if (n <= 0) { return 0; } local r; foreach i in [1] { foreach j, e in "x" { r = 1 + down(n - 1); } } return r;`},
+		{"returning from inside a foreach", `if (n <= 0) { return 0; } foreach i in 1..3 { return 1 + down(n - 1); } return -1;`},
+		{"inside a while and a switch", `if (n <= 0) { return 0; } local r; local k; k = 1; while (k > 0) { k--; switch (n % 2) { case 0, 1 { r = 1 + down(n - 1); } } } return r;`},
+	}
+	for si, sh := range shapes {
+		for _, depth := range []int{3000, 6000, 9000} {
+			id := fmt.Sprintf("recursion-through-loops/%d/%d", si, depth)
+			if !c.Want(id) {
+				continue
+			}
+			script := "function down(n) { " + sh.body + " } return down(Depth);"
+			evr, err := eng.New(script, eng.Options{NoOptimize: (si+depth/3000)%2 == 0, Budget: 50000000})
+			c.Case(id, true)
+			if err != nil {
+				c.Violation(id, "prepare", map[string]interface{}{"summary": "Prepare failed: " + err.Error(), "script": script})
+				continue
+			}
+			for run := 1; run <= 2; run++ {
+				o := evr.Exec(map[string]interface{}{"Depth": depth})
+				if want := fmt.Sprintf("INTEGER:%d", depth); o.Desc() != want || evr.ScopeDepth() != 0 {
+					c.Violation(id, "recursion "+sh.name, map[string]interface{}{
+						"summary": fmt.Sprintf("%s with Depth=%d (run %d) gives %s %s, open scopes %d; expected %s: a recursion of that depth is allowed, wherever the call is made from", script, depth, run, o.Desc(), errText(o.Err), evr.ScopeDepth(), want), "script": script})
 					break
 				}
 			}
